@@ -19,13 +19,15 @@ StaleStates == {[GoodState(d, p) EXCEPT !.hist = "updp", !.skew = k] : d \in {"o
 \* (states, request distance) blocks: wide in one dimension, narrow in the other
 Blocks == IF Tier = "thorough"
           THEN << [S |-> AbsStates(2, Mags), k |-> 1],
-                  [S |-> {s \in AbsStates(2, Mags) : s.pol = 1} \cup AbsStates(1, Mags), k |-> 2] >>
+                  [S |-> {s \in AbsStates(2, Mags) : s.pol = 1 /\ s.dir = "out"} \cup AbsStates(1, Mags), k |-> 2] >>
           ELSE << [S |-> AbsStates(1, Mags) \cup StaleStates, k |-> 1],
                   [S |-> {s \in AbsStates(1, Mags) : s.pol = 1 /\ s = [GoodState(s.dir, 1) EXCEPT !.mag = s.mag]},
                    k |-> 2] >>
 
-StateSeq == SetToSeq(UNION {Blocks[b].S : b \in DOMAIN Blocks})
-KOf(s) == IF \E b \in DOMAIN Blocks : Blocks[b].k = 2 /\ s \in Blocks[b].S THEN 2 ELSE 1
+\* every tier also runs the "guess" block (states whose two commitments disagree, phase-1 requests)
+StateSeq == SetToSeq(UNION {Blocks[b].S : b \in DOMAIN Blocks} \cup GuessStates)
+KOf(s) == IF \E b \in DOMAIN Blocks : Blocks[b].k = 2 /\ s \in Blocks[b].S THEN 2
+          ELSE IF \E b \in DOMAIN Blocks : s \in Blocks[b].S THEN 1 ELSE 0
 
 Cont(c) == [h |-> c.h, c |-> c.c, n |-> c.n]
 StateRec(k) ==
@@ -46,7 +48,7 @@ CaseRec(k, r, c) ==
      <<r.d, r.fee, r.hscr, r.cscr, r.hopt, r.copt>> >>
 
 CasesOf(k) == LET s == StateSeq[k]
-                   cs == {<<r, ConcReq(s, r)>> : r \in PlausibleReqs(s, KOf(s))} IN
+                   cs == {<<r, ConcReq(s, r)>> : r \in PlausibleReqs(s, KOf(s)) \cup GuessReqsOf(s, Tier = "thorough")} IN
                {CaseRec(k, p[1], p[2]) : p \in {x \in cs : x[2].ok}}
 Cases == SetToSeq(UNION {CasesOf(k) : k \in Mine})
 
